@@ -30,6 +30,7 @@ import (
 
 	"github.com/99designs/gqlgen/graphql"
 	"github.com/99designs/gqlgen/graphql/handler"
+	"github.com/99designs/gqlgen/graphql/handler/extension"
 	"github.com/99designs/gqlgen/graphql/handler/lru"
 	"github.com/99designs/gqlgen/graphql/handler/transport"
 	"github.com/vektah/gqlparser/v2/ast"
@@ -280,7 +281,7 @@ func Run(rc *core.RunCtx) {
 		return fmt.Errorf("recovered:%v", err)
 	})
 
-	fault := []string{"none", "truncate-eof", "truncate-err", "rechunk", "content-length", "corrupt", "json-prefix", "invalid-doc"}[t.Choose(8, "fault")]
+	fault := []string{"none", "truncate-eof", "truncate-err", "rechunk", "content-length", "corrupt", "json-prefix", "invalid-doc", "opname"}[t.Choose(9, "fault")]
 	// a document cache, as handler.NewDefaultServer configures one
 	if t.Bool(1, 2, "query-cache") {
 		srv.SetQueryCache(lru.New[*ast.QueryDocument](4))
@@ -295,6 +296,18 @@ func Run(rc *core.RunCtx) {
 	}
 	if base.OpName != "" {
 		ops["operationName"] = base.OpName
+	}
+	if fault == "opname" {
+		// an operationName that is almost, but not exactly, the name of an operation in the
+		// document (or names none): a client error, or that operation - never a crash. A
+		// complexity limit makes the server resolve the name a second time.
+		srv.Use(extension.FixedComplexityLimit(1 << 20))
+		name := base.OpName
+		if name == "" {
+			name = "Q"
+		}
+		ops["operationName"] = []string{name + " ", " " + name, name + "\n", "\t" + name, strings.ToLower(name), name + name, ""}[t.Choose(7, "opname-variant")]
+		faultDesc = fmt.Sprintf("operationName %q", ops["operationName"])
 	}
 	if fault == "invalid-doc" {
 		// syntactically fine, rejected by validation (or by operation selection)
@@ -547,7 +560,7 @@ func Run(rc *core.RunCtx) {
 	srv.ServeHTTP(rec, r)
 	// the same bytes again (a client retrying): the second answer is the one judged below, the
 	// recover hook is watched over both
-	if (fault == "none" || fault == "corrupt" || fault == "json-prefix" || fault == "invalid-doc") && kind != "multipart" && t.Bool(1, 3, "repeat") {
+	if (fault == "none" || fault == "corrupt" || fault == "json-prefix" || fault == "invalid-doc" || fault == "opname") && kind != "multipart" && t.Bool(1, 3, "repeat") {
 		var r2 *http.Request
 		if method == "GET" {
 			r2 = httptest.NewRequest(method, target, nil)
